@@ -108,7 +108,7 @@ func (k Keeper) PlaceBid(ctx context.Context, msg *types.MsgPlaceBid) (types.Bid
 	bid := types.Bid{
 		AuctionId: msg.AuctionId,
 		Id:        bidID,
-		Bidder:    msg.Bidder,
+		Bidder:    bidder.String(), // canonical spelling: bech32 may be written in upper case and records are compared by string
 		Type:      msg.BidType,
 		Price:     msg.Price,
 		Coin:      msg.Coin,
